@@ -131,6 +131,8 @@ def _search_chunk(args):
             t1 = "#program initial. &tel {{ {} }}. #program always. {{ a; b }}.".format(tl.render_tel(lhs))
             t2 = "#program initial. &tel {{ {} }}. #program always. {{ a; b }}.".format(tl.render_tel(rhs))
             r1, r2 = oracles.impl_models(t1, H, dedup=True), oracles.impl_models(t2, H, dedup=True)
+            if "Timeout" in (r1[1] if r1[0] == "err" else "", r2[1] if r2[0] == "err" else ""):
+                continue      # slow is not wrong (clause unfolding of nested until/release is exponential)
             if r1 != r2:
                 fails.append({"kind": "head-law", "law": name, "text": t1 + "\n%%% versus\n" + t2, "input": [t1, t2],
                               "got": [str(r1)[:300], str(r2)[:300]]})
